@@ -360,8 +360,74 @@ func (ev *cenv) quant(e *CExpr) *Val {
 	sub.bound = nb
 	body := sub.evalBool(e.Args[0])
 	g := and(guards...)
+	// Ground pre-instantiation for byte-level layouts: a universally quantified fact
+	// over byte/string positions is conjoined with its instances at positions 0..6
+	// (logically redundant, but it puts the ground terms sat(s,c) / b[c] on the
+	// table, which makes proofs about fixed header layouts independent of MBQI).
+	var ground []string
+	if e.Op == "forall" && len(binders) == 1 && strings.HasSuffix(binders[0], " Int)") && len(e.Pats) == 0 &&
+		(strings.Contains(body, fSat) || strings.Contains(body, "elems<byte>") || strings.Contains(body, "elems<uint8>")) && len(body) < 4000 {
+		name := binders[0][1:strings.LastIndex(binders[0], " ")]
+		for c := 0; c <= 6; c++ {
+			inst := implies(strings.ReplaceAll(g, name, intLit(int64(c))), strings.ReplaceAll(body, name, intLit(int64(c))))
+			ground = append(ground, inst)
+		}
+	}
+	// Change of variables k -> j = OFF + k for element reads s[k] of a slice with a
+	// symbolic window offset: the reads become (select (select A ref) j), which
+	// gives arithmetic-free triggers.
+	shifted := false
+	if len(e.Pats) == 0 {
+		for bi, b := range binders {
+			name := b[1:strings.LastIndex(b, " ")]
+			if !strings.HasSuffix(b, " Int)") {
+				continue
+			}
+			off := shiftOffset(body, name)
+			if off == "" {
+				continue
+			}
+			j := E.freshName("j")
+			rep := func(t string) string {
+				t = strings.ReplaceAll(t, "(+ "+off+" "+name+")", j)
+				return strings.ReplaceAll(t, name, "(- "+j+" "+off+")")
+			}
+			body, g = rep(body), rep(g)
+			binders[bi] = fmt.Sprintf("(%s Int)", j)
+			shifted = true
+		}
+	}
 	if e.Op == "forall" {
-		return boolVal(fmt.Sprintf("(forall (%s) %s)", strings.Join(binders, " "), implies(g, body)))
+		inner := implies(g, body)
+		if len(e.Pats) > 0 {
+			var ps []string
+			for _, grp := range e.Pats {
+				var ts []string
+				for _, pe := range grp {
+					pv := sub.eval(pe)
+					for _, l := range leaves(pv) {
+						ts = append(ts, l.S)
+					}
+				}
+				ps = append(ps, ":pattern ("+strings.Join(ts, " ")+")")
+			}
+			inner = "(! " + inner + " " + strings.Join(ps, " ") + ")"
+		} else {
+			var bn []string
+			for _, b := range binders {
+				bn = append(bn, b[1:strings.LastIndex(b, " ")])
+			}
+			// only where the solver's own inference is known to go wrong: element reads
+			// through at(off, k) (it tends to pick terms with interpreted arithmetic)
+			if ap := autoPatterns(inner, bn); ap != "" && shifted {
+				inner = "(! " + inner + " " + ap + ")"
+			}
+		}
+		q := fmt.Sprintf("(forall (%s) %s)", strings.Join(binders, " "), inner)
+		if len(ground) > 0 {
+			q = and(append([]string{q}, ground...)...)
+		}
+		return boolVal(q)
 	}
 	return boolVal(fmt.Sprintf("(exists (%s) %s)", strings.Join(binders, " "), and(g, body)))
 }
@@ -529,7 +595,7 @@ func (ev *cenv) index(e *CExpr) *Val {
 	}
 	switch t := types.Unalias(base.T).Underlying().(type) {
 	case *types.Slice:
-		lv := &LVal{Kind: lvElem, Ref: base.F[0].S, Idx: add(base.F[1].S, idx.S), Root: t.Elem()}
+		lv := &LVal{Kind: lvElem, Ref: base.F[0].S, Idx: E.at(base.F[1].S, idx.S), Root: t.Elem()}
 		return ev.loadLV(lv)
 	case *types.Basic:
 		if base.Sort == SStr {
@@ -696,6 +762,13 @@ func (ev *cenv) call(e *CExpr) *Val {
 			return evs[k].Res
 		case "ghost":
 			return ev.loadLV(ev.ghostLV(args))
+		case "cast":
+			T := ev.typeFromExpr(args[0])
+			x := ev.eval(args[1])
+			if isMissing(x) {
+				return x
+			}
+			return &Val{T: T, S: x.S, Sort: x.Sort}
 		case "aftercall":
 			evs := ev.events(args[0])
 			k := ev.constInt(args[1])
@@ -877,7 +950,7 @@ func (ev *cenv) evalLV(e *CExpr) *LVal {
 		base := ev.eval(e.Args[0])
 		idx := ev.eval(e.Args[1])
 		if sl, ok := types.Unalias(base.T).Underlying().(*types.Slice); ok {
-			return &LVal{Kind: lvElem, Ref: base.F[0].S, Idx: add(base.F[1].S, idx.S), Root: sl.Elem()}
+			return &LVal{Kind: lvElem, Ref: base.F[0].S, Idx: E.at(base.F[1].S, idx.S), Root: sl.Elem()}
 		}
 	case "ident":
 		v := ev.lookupIdent("&" + e.Name)
@@ -946,4 +1019,41 @@ func usesCallLog(e *CExpr) bool {
 		}
 	}
 	return false
+}
+
+// shiftOffset finds the most frequent OFF such that "(+ OFF v)" is the index of
+// an element read in body (OFF not mentioning v).
+func shiftOffset(body, v string) string {
+	root := parseSexp(body)
+	if root == nil {
+		return ""
+	}
+	cnt := map[string]int{}
+	var order []string
+	var walk func(n *sexp)
+	walk = func(n *sexp) {
+		if n == nil || n.atom != "" {
+			return
+		}
+		if n.head() == "select" && len(n.kids) == 3 {
+			ix := n.kids[2]
+			if ix.head() == "+" && len(ix.kids) == 3 && ix.kids[2].atom == v && !strings.Contains(ix.kids[1].text, v) {
+				if cnt[ix.kids[1].text] == 0 {
+					order = append(order, ix.kids[1].text)
+				}
+				cnt[ix.kids[1].text]++
+			}
+		}
+		for _, k := range n.kids {
+			walk(k)
+		}
+	}
+	walk(root)
+	best := ""
+	for _, o := range order {
+		if best == "" || cnt[o] > cnt[best] {
+			best = o
+		}
+	}
+	return best
 }
